@@ -248,6 +248,15 @@ Additions for distance_calculation.py (get_lower_triangular_indices_chunk, Chunk
                       cfg["index_error"] = tag: `a <- list_set tag (getter x) i v; x := setter x a` (numpy / list item store:
                       a negative index wraps once, IndexError outside); the object variable is rebound as for `x.attr = e`
   `x.attr += e`       attr a declared field of type Z: `x.attr = x.attr + e`
+Additions for the command-line wrappers (batchie/cli/*.py main functions):
+  cfg["typed_effects"]  [(expression-statement pattern, state variable, template over {state} and the holes, {hole: type})]:
+                      like cfg["effects"], but every hole is coerced to its declared type first (an `opt T` value where T is
+                      needed is a checked unwrap, Err 99), so an argument of another type is refused by the translator
+                      (`model.add_observations(subset)`, `result.save_h5(path)`, `f.write(str(n))`)
+  cfg["kwcalls"]      a key `module.function` declares a keyword-only call through an imported module (`sampling.sample(...)`);
+                      refused when `module` is a bound variable of the function (that would be a method call on an object)
+  cfg["state_calls"]  a state call may be assigned to a tuple of names `(a, b) = <pattern>` when its value type is the tuple
+                      of their declared types: `dor (a, b, s1, ..., sn) <- template;`
 """
 import ast
 
@@ -369,6 +378,8 @@ class Tr:
         self.kwcalls = {rn(f): (t, parse_type(ty), [(p, parse_type(pt), d) for p, pt, d in ps])
                         for f, (t, ty, ps) in cfg.get("kwcalls", {}).items()}
         self.plain_contexts = [pat(p) for p in cfg.get("plain_contexts", [])]
+        # typed effects: (pattern, state variable, template, hole types)
+        self.typed_effects = [(pat(x[0]), x[1], x[2], {h: parse_type(t) for h, t in x[3].items()}) for x in cfg.get("typed_effects", [])]
         self.retype_effects = [(spat(x[0]), rn(x[1]), x[2], parse_type(x[3]), parse_type(x[4]),
                                 {h: parse_type(t) for h, t in (x[5] if len(x) > 5 else {}).items()})
                                for x in cfg.get("retype_effects", [])]
@@ -459,6 +470,8 @@ class Tr:
             return "(" + tmpl.format(**args) + ")", ty
         if isinstance(e, ast.Call) and isinstance(e.func, ast.Name) and e.func.id in self.kwcalls:
             return self.kwcall(e, env, hoist)
+        if isinstance(e, ast.Call) and self.dotted_callee(e.func, env) in self.kwcalls:     # cfg["kwcalls"] key `module.function`
+            return self.kwcall(ast.Call(func=ast.Name(id=self.dotted_callee(e.func, env), ctx=ast.Load()), args=e.args, keywords=e.keywords), env, hoist)
         if isinstance(e, ast.Attribute) and e.attr in self.fields:
             owner, fty, getter, _ = self.fields[e.attr]
             o, ot = self.expr(e.value, env, hoist)
@@ -687,6 +700,21 @@ class Tr:
             return n, ty
         return "(" + tmpl.format(**args) + ")", ty
 
+    def dotted_callee(self, func, env):
+        """`module.function` (as a cfg["kwcalls"] key) when [func] is an attribute of a plain name that is not a bound variable"""
+        if isinstance(func, ast.Attribute) and isinstance(func.value, ast.Name) and func.value.id.endswith(SUFFIX) \
+                and env.get(func.value.id, ("unit",)) == ("unit",):
+            return rn(func.value.id[:-len(SUFFIX)] + "." + func.attr)
+        return None
+
+    def typed_effect_of(self, call):
+        """cfg["typed_effects"]: (state variable, template, hole bindings, hole types) of the first pattern matching [call]"""
+        for patn, var, tmpl, argtys in self.typed_effects:
+            binds = {}
+            if self.unify(patn, call, binds):
+                return var, tmpl, binds, argtys
+        return None
+
     def need(self, term, have, want, hoist):
         """coerce a term of type [have] to type [want]"""
         if have == want:
@@ -870,6 +898,8 @@ class Tr:
                     add(self.field_target(st.target))
                 else:
                     raise Unsupported("augmented target: " + ast.unparse(st))
+            elif isinstance(st, ast.Expr) and self.typed_effect_of(st.value) is not None:
+                add(self.typed_effect_of(st.value)[0])
             elif isinstance(st, ast.Expr):
                 eff = self.effect_of(st.value)
                 if eff:
@@ -1019,6 +1049,22 @@ class Tr:
             if len(st.targets) != 1:
                 raise Unsupported("multiple assignment: " + ast.unparse(st))
             tgt = st.targets[0]
+            for patn, svars, tmpl, vty, argtys in self.state_calls:      # (a, b) = <state call>
+                binds = {}
+                if isinstance(tgt, ast.Tuple) and self.unify(patn, st.value, binds):
+                    names = self.targets(tgt)
+                    if any(v not in env or env[v] == ("unit",) for v in svars) or ("tuple", tuple(self.var_type(n) for n in names)) != vty \
+                            or len(set(names)) != len(names):
+                        raise Unsupported("state call: " + ast.unparse(st))
+                    args = {}
+                    for kk, v in binds.items():
+                        a, at = self.expr(v, env, hoist)
+                        args[kk[2:]] = self.need(a, at, argtys[kk[2:]], hoist) if kk[2:] in argtys else a
+                    env2 = dict(env)
+                    for n in names:
+                        env2[n] = self.var_type(n)
+                    txt = "%s%s %s <- %s;\n" % (ind, self.M["bind"], self.bind_pat(names + svars), tmpl.format(**args))
+                    return self.bind_hoist(hoist, txt, ind) + self.block(rest, env2, k, ind)
             for patn, svars, tmpl, vty, argtys in self.state_calls:
                 binds = {}
                 if isinstance(tgt, ast.Name) and self.unify(patn, st.value, binds):
@@ -1154,6 +1200,21 @@ class Tr:
             vv, vt = self.expr(st.value, env, hoist)
             term = "(dict_incr %s %s %s)" % (d, self.need(kk, kt, ("Z",), hoist), self.need(vv, vt, ("Z",), hoist))
             return self.bind_hoist(hoist, "%slet %s := %s in\n" % (ind, d, term), ind) + self.block(rest, env, k, ind)
+        if isinstance(st, ast.Expr) and self.typed_effect_of(st.value) is not None:
+            # cfg["typed_effects"]: the holes are coerced to their declared types (a refusal when they do not fit)
+            var, tmpl, binds, argtys = self.typed_effect_of(st.value)
+            if var not in env or env[var] == ("unit",):
+                raise Unsupported("effect on an unbound state variable: " + var)
+            args = {}
+            for kk, v in binds.items():
+                if kk[2:] not in argtys:
+                    raise Unsupported("typed effect with an untyped hole: " + kk)
+                a, at = self.expr(v, env, hoist)
+                args[kk[2:]] = self.need(a, at, argtys[kk[2:]], hoist)
+            args["state"] = var
+            if tmpl.startswith("!"):
+                return self.bind_hoist(hoist, "%s%s %s <- %s;\n" % (ind, self.M["bind"], var, tmpl[1:].format(**args)), ind) + self.block(rest, env, k, ind)
+            return self.bind_hoist(hoist, "%slet %s := %s in\n" % (ind, var, tmpl.format(**args)), ind) + self.block(rest, env, k, ind)
         if isinstance(st, ast.Expr):
             eff = self.effect_of(st.value)
             if eff:
